@@ -218,96 +218,80 @@ Example sort_premises_hold :
 Proof. vm_compute. repeat split. Qed.
 
 (* ------------------------------------------------------------------------
-   string.format.  Full statement (the property text names `format` among the
-   operations that follow the specification for all arguments):
+   string.format.  string_format (Format.v) is the scanning loop of
+   string_format in starlark/library.go over byte lists (IndexByte / slicing /
+   strings.Cut, the flags auto / manual and the counter index, `decimal` with
+   Go's int arithmetic -- saturating at math.MaxInt since commit 5574fcc --,
+   every slice and index expression bounds-checked, explicit fuel) and
+   format_spec (FormatSpec.v) parses the template into segments (split at the
+   braces, then group and classify: Lit | Field selector conv spec | Stray |
+   Unclosed; a numeric field name is a natural number of any size) and
+   evaluates them against (args, kwargs) with the numbering discipline of
+   doc/spec.md.  Values are abstract: str_of / repr_of are the renderings
+   str(x) / repr(x) (property C15).
 
-     forall V str_of repr_of template args kwargs,
-       string_format V str_of repr_of template args kwargs =
-       format_spec V str_of repr_of template args kwargs
-
-   where string_format (Format.v) is the scanning loop of string_format in
-   starlark/library.go over byte lists (IndexByte / slicing / strings.Cut,
-   the flags auto / manual and the counter index, `decimal` with Go's int
-   arithmetic, every slice and index expression bounds-checked, explicit
-   fuel) and format_spec (FormatSpec.v) parses the template into segments
-   (split at the braces, then group and classify: Lit | Field selector conv
-   spec | Stray | Unclosed) and evaluates them against (args, kwargs) with
-   the numbering discipline of doc/spec.md.  Values are abstract: str_of /
-   repr_of are the renderings str(x) / repr(x) (property C15).  Equality of
-   the two results covers: the same bytes on success, failure on exactly the
+   For templates of ANY length and ANY positional / keyword argument lists the
+   two results are equal: the same bytes on success, failure on exactly the
    same inputs with the same error class (FormatBase.ferr, one class per
    message group of the Go code), and -- the specification has no such
-   results -- no run-time panic and no exhausted fuel in the model.
+   results -- no run-time panic and no exhausted fuel in the model.  This is
+   the full statement; the two hypotheses are well-formedness conditions of
+   the representation, not restrictions: the elements of the template are
+   byte values (is_bytes), and len(args) is a Go int.
 
-   The full statement is FALSE for the code as it is (format_correct_refuted):
-   Go's `decimal` computes a numeric field name in an int and rejects only a
-   negative intermediate value, so a name that wraps past 2^64 to a small
-   value is used as that index.  What is proved, for templates of ANY length
-   and ANY argument lists, is the statement under the boolean guard
-   `numbers_fit template`: every all-digit field name denotes a number below
-   2^63 (is_bytes: the elements of the template are byte values -- a
-   well-formedness condition of the representation, not a restriction).
-   Missing for the full statement: nothing in the proof -- the code has to
-   reject (or saturate) an overflowing field number. *)
-Theorem format_correct_partial :
+   Before 5574fcc the statement was false (decimal wrapped past 2^64 to a
+   small index, or fell through to the keyword branch):
+   History.old_format_refuted, History.old_format_number_as_keyword. *)
+Theorem format_correct :
   forall (V : Type) (str_of repr_of : V -> fbytes)
          (template : fbytes) (args : list V) (kwargs : list (fbytes * V)),
     is_bytes template = true ->
-    numbers_fit template = true ->
+    Z.of_nat (length args) <= max_int64 ->
     string_format V str_of repr_of template args kwargs =
     format_spec V str_of repr_of template args kwargs.
-Proof. exact format_correct_partial_lemma. Qed.
+Proof. exact format_correct_lemma. Qed.
 
 (* with the fuel string_format passes (len(format)+1 for the outer loop,
    len(literal)+1 for the inner one) the loops never run dry, and no slice or
    index expression of the Go text is out of range *)
-Theorem format_never_panics_partial :
+Theorem format_never_panics :
   forall (V : Type) (str_of repr_of : V -> fbytes)
          (template : fbytes) (args : list V) (kwargs : list (fbytes * V)),
     is_bytes template = true ->
-    numbers_fit template = true ->
+    Z.of_nat (length args) <= max_int64 ->
     string_format V str_of repr_of template args kwargs <> FPanic /\
     string_format V str_of repr_of template args kwargs <> FOutOfFuel.
 Proof. exact format_no_panic_lemma. Qed.
-
-(* "{18446744073709551616}".format("a") is "a" in the model (and in the real
-   interpreter: replayed by hand, see the report); the specification fails
-   with "index out of range". *)
-Theorem format_correct_refuted :
-  exists (template : fbytes) (args : list fbytes) (kwargs : list (fbytes * fbytes)),
-    is_bytes template = true /\
-    string_format fbytes (fun v => v) (fun v => v) template args kwargs = FOk [97%N] /\
-    format_spec fbytes (fun v => v) (fun v => v) template args kwargs = FErr EIndexRange.
-Proof. exact format_correct_refuted_lemma. Qed.
 
 (* Non-vacuity: a value is (its str text, its repr text).
    "{!r}{} {k}{{}}".format("a", "b", k="v") = "\"a\"b v{}"  (conversion not
    carried over to the next field, keyword field, both escapes);
    "{}{0}" mixes the numberings, "{a}{b}" lacks b, "{0:>4}" has a specifier,
-   "{0!x}" an unknown conversion, "x}" a single close brace, "{00}" is index 0. *)
+   "{0!x}" an unknown conversion, "x}" a single close brace, "{00}" is index 0,
+   "{18446744073709551616}" (2^64) is an index out of range. *)
 Example format_premises_hold :
   let V := (fbytes * fbytes)%type in
   let a : V := ([97]%N, [34; 97; 34]%N) in
   let b : V := ([98]%N, [34; 98; 34]%N) in
   let v : V := ([118]%N, [34; 118; 34]%N) in
   let t := [123; 33; 114; 125; 123; 125; 32; 123; 107; 125; 123; 123; 125; 125]%N in
-  is_bytes t = true /\ numbers_fit t = true /\
+  is_bytes t = true /\ Z.of_nat (length [a; b]) <= max_int64 /\
   parse t = [Field Auto [114]%N []; Field Auto [115]%N []; Lit [32]%N; Field (Key [107]%N) [115]%N [];
              Lit [123]%N; Lit [125]%N] /\
   string_format V fst snd t [a; b] [([107]%N, v)] = FOk [34; 97; 34; 98; 32; 118; 123; 125]%N /\
   format_spec V fst snd t [a; b] [([107]%N, v)] = FOk [34; 97; 34; 98; 32; 118; 123; 125]%N /\
   string_format V fst snd t [a] [([107]%N, v)] = FErr EIndexRange /\
-  numbers_fit [123; 125; 123; 48; 125]%N = true /\
   string_format V fst snd [123; 125; 123; 48; 125]%N [a; b] [] = FErr EAutoToManual /\
   string_format V fst snd [123; 97; 125; 123; 98; 125]%N [] [([97]%N, a)] = FErr EKeyword /\
   format_spec V fst snd [123; 97; 125; 123; 98; 125]%N [] [([97]%N, a)] = FErr EKeyword /\
   string_format V fst snd [123; 48; 58; 62; 52; 125]%N [a] [] = FErr ESpecUnsupported /\
   string_format V fst snd [123; 48; 33; 120; 125]%N [a] [] = FErr EConversion /\
   string_format V fst snd [120; 125]%N [a] [] = FErr ESingleClose /\
-  numbers_fit [123; 48; 48; 125]%N = true /\
   string_format V fst snd [123; 48; 48; 125]%N [a] [] = FOk [97]%N /\
-  numbers_fit wrap_witness = false.
-Proof. vm_compute. repeat split. Qed.
+  is_bytes History.wrap_witness = true /\
+  string_format V fst snd History.wrap_witness [a; b] [] = FErr EIndexRange /\
+  format_spec V fst snd History.wrap_witness [a; b] [] = FErr EIndexRange.
+Proof. vm_compute. repeat split; intro; discriminate. Qed.
 
 (* ------------------------------------------------------------------------
    format % args  (a string left operand).  interpolate (Interp.v) is the
